@@ -106,10 +106,56 @@ def tz_part(ctx: vlib.Ctx):
     ctx.sample({"offset_minutes": -30, "wire": "UTC-00:30"})
 
 
+def roundtrip_part(ctx: vlib.Ctx):
+    """general round trip: Coq theorem over the type-level model + (M) correspondence + direct oracle"""
+    from harness import gen, tycorr, tyoracle
+    from mashumaro.codecs.basic import BasicDecoder, BasicEncoder
+    ctx.theorems("props/C01_roundtrip.vo", ["C01_roundtrip", "C01_roundtrip_codec"])
+    ctx.trusted.append("TyModel.v (cp/pk, cu/uk) tied by vm_compute correspondence; stdlib render/parse pairs are oracle functions whose "
+                       "round-trip law is a hypothesis of the theorem restricted to the values present (atoms_ok)")
+    ctx.assumptions.append("unions are decided under C11; NamedTuple/TypedDict/abstract collections/leaf-typed mapping keys by the oracle only")
+    cases, bad, log = tycorr.run(ctx, "c01_ty", ctx.budget(50, 400), 3, depth=3, foreign=1)
+    hits = tyoracle.report_corr(ctx, "TyModel (pk, uk) vs BasicEncoder/BasicDecoder", cases, bad, log)
+    n = ctx.budget(300, 3000) if not hits else ctx.budget(1500, 8000)
+    for fam, ns, t, ty, sg in tyoracle.schema_stream(ctx.rng, n, literals=True):
+        try:
+            enc = BasicEncoder(ty)
+            dec = BasicDecoder(ty)
+        except Exception as e:
+            ctx.fail(f"codec for {gen.py_ann(t)} cannot be built: {type(e).__name__}: {e}",
+                     {"entry": "codec_build", "source": fam.source(), "type": gen.py_ann(t), "expected": "ok"}, {"kind": "codec-build"})
+            continue
+        vg = gen.ValueGen(ctx.rng, fam)
+        for _ in range(4):
+            v = vg.value(t)
+            ctx.count((t.key(), repr(v)))
+            entries = [("codec_roundtrip", lambda: dec.decode(enc.encode(v)))]
+            if t.kind == "data" and fam.get(t.name).mixin:
+                entries.append(("mixin_roundtrip", lambda: type(v).from_dict(v.to_dict())))
+            for entry, f in entries:
+                try:
+                    back = f()
+                    ok = gen.same(back, v)
+                    obs = "ok:" + gen.py_src(back)
+                except Exception as e:
+                    ok = False
+                    obs = f"exc:{type(e).__name__}"
+                if not ok:
+                    ctx.fail(f"{gen.py_ann(t)}: {entry} of {gen.py_src(v)[:200]} gives {obs[:200]}",
+                             {"entry": entry, "source": fam.source(), "type": gen.py_ann(t), "input_src": gen.py_src(v),
+                              "observed": obs, "expected": "ok:" + gen.py_src(v)}, {"kind": "roundtrip"})
+        for n_ in t.walk():
+            ctx.hist("oracle_type_constructors", n_.kind)
+        fam.dispose()
+
+
 def run(ctx: vlib.Ctx):
     ctx.coverage["rule"] = ("timezone leaf: every whole-minute offset in (-24h,24h) (exhaustive, distinct = offsets); "
-                            "general round trip: generated (schema, value) pairs, distinct = distinct schema shapes x value")
+                            "general round trip: schemas from the shared grammar generator (depth<=4, nested/recursive/mixin dataclasses, "
+                            "named tuples, typed dicts, all leaf kinds, enums, collections, Optional, Literal) x edge-biased lossless values; "
+                            "distinct = (type tree, value) pairs")
     tz_part(ctx)
+    roundtrip_part(ctx)
 
 
 def replay(rep: dict) -> int:
@@ -124,5 +170,18 @@ def replay(rep: dict) -> int:
             return 1
         print("not reproduced")
         return 0
-    print("unknown replay kind")
-    return 2
+    if rep.get("entry") == "codec_build":
+        from harness import gen
+        from mashumaro.codecs.basic import BasicDecoder, BasicEncoder
+        ns = gen.build_module(rep["source"])
+        try:
+            ty = eval(rep["type"], dict(ns))
+            BasicEncoder(ty)
+            BasicDecoder(ty)
+            print("builds")
+            return 0
+        except Exception as e:
+            print("REPRODUCED", type(e).__name__, e)
+            return 1
+    from harness import gen
+    return gen.replay_generic(rep)
